@@ -75,3 +75,12 @@ relabel_three_cycle_counterexample rowwise_isolation isolation_up_to_nsub nsub_b
 THEOREMS_C20 = ["C20." + t for t in """firstWithin_spec run_spec sd_eval_count sd_returns_last_evaluated sd_message_rule sd_converged_message_sound sd_converged_at_cap_reports_not_converged
 sd_max_evl_zero sd_full_control_flow sd_coordinates_one_update_past descent_lemma descent_step_decreases padding_never_moves coordinate_fixed_iff_force_zero padding_never_moves_batch
 update_uses_own_force_only path_independent_of_batch_mates path_length_is_batch_global""".split()]
+
+THEOREMS_C03 += ["Census.all_while_loops_capped", "Census.sp2_loop_in_census"]
+THEOREMS_C18 += ["Census.documented_guards_present"]
+
+THEOREMS_C06B = ["C06b." + t for t in """aintgs_recurrence aintgs_closed_form bintgs_recurrence bintgs_at_zero bintgs_series_is_truncated_maclaurin bintgs_parity exact_B_relation
+bintgs_recursion_satisfies_relation bintgs_zero_satisfies_relation bintgs_series_violates_exact_recurrence overlap_1s1s_equal_zeta overlap_22_equal_zeta overlap_33_equal_zeta
+poly11ss_spec poly21ss_spec poly21ps_spec poly22ss_spec poly22ps_spec poly22sp_spec poly22sig_spec poly22pi_spec poly31ss_spec poly31ps_spec poly32ss_spec poly32ps_spec poly32sp_spec
+poly32sig_spec poly32pi_spec poly33ss_spec poly33ps_spec poly33sp_spec poly33sig_spec poly33pi_spec local_eq_spec_11 local_eq_spec_21 local_eq_spec_22 local_eq_spec_31 local_eq_spec_32
+local_eq_spec_33 local_swap_11 local_swap_22 local_swap_33""".split()]
